@@ -59,6 +59,8 @@ class Check:
         d = {"name": name, "distinct": res.distinct, "generated": res.generated, "depth": res.depth,
              "wall_s": round(res.wall_s, 1)}
         d.update(info)
+        if getattr(res, "coverage_zero", None):
+            d["actions_never_taken"] = res.coverage_zero      # vacuity report (thorough tier runs TLC with -coverage 1)
         self.configs.append(d)
         if not res.ok:
             raise MachineryFailure(f"TLC run '{name}' reported an error in the specification itself:\n{res.violation}")
@@ -137,6 +139,8 @@ def main_wrapper(pid: str, fn) -> int:
     args, _ = ap.parse_known_args(sys.argv[2:])
     seed = int(os.environ.get("VERIF_SEED", "0") or 0)
     chk = Check(pid, args.tier, seed)
+    if args.tier == "thorough":
+        os.environ.setdefault("FJV_COVERAGE", "1")
     try:
         fn(chk, replay=args.replay)
         return chk.finish()
